@@ -10,7 +10,9 @@ forged sessions), spec/Tickets_Trace.tla (validation of what the real API did). 
     Config.EncryptTicket/DecryptTicket/SetSessionTicketKeys/TicketKeyFromBytes, the recorded results (did a state come
     back, its SessionState.Bytes()) are judged by TLC.
  2. random long histories (TLC -simulate) over more keys / states; exhaustive single-bit and prefix sweeps of real tickets.
- 3. the TLC-enumerated grid of forged ClientSessionStates is handshaken against the in-tree server with known keys.
+ 3. the TLC-enumerated grid of forged ClientSessionStates (TLS 1.0-1.2 master secrets, TLS 1.3 PSKs of every 1.3 suite, secret via
+    constructor or SetMasterSecret) is handshaken against the in-tree server with known keys; MasterSecret() accessor round trip
+    for secret lengths 0..64.
 """
 import concurrent.futures as cf
 import re
@@ -18,7 +20,7 @@ import vlib
 
 NEED = ["TSetKeys", "TAdvance", "TEncrypt", "TFlip", "TTruncate", "TExtend", "TDecryptOpens", "TDecryptKeyGone",
         "TDecryptModified", "TIndepOpens", "TIndepRefuses"]
-NEED_FORGE = ["TForgeResumed", "TForgeNotResumed"]
+NEED_FORGE = ["TForgeResumed", "TForgeResumed13", "TForgeNotResumed", "TSecret"]
 
 
 def _cfg(ctx, name, base, **repl):
@@ -91,6 +93,8 @@ def _sig(r):
     if r["kind"] == "Forge":
         return "Forge:%s" % ("resumed-with-other-parameters" if not w["carries"] else
                               ("accepted-ticket-did-not-resume" if w["accepted"] else "outcome"))
+    if r["kind"] == "Secret":
+        return "Secret:MasterSecret()-differs-from-supplied:via=%s:len=%d->%d" % (w["secvia"], w["suppliedlen"], w["gotlen"])
     return "%s:unexplained" % r["kind"]
 
 
@@ -115,7 +119,9 @@ def run(ctx):
         "ticket keys are SHA-256 derived 32-byte strings per key id; automatic keys come from the library's own randomness",
         "the 'Indep' observation opens a ticket in the harness with HMAC-SHA256/AES-CTR from the Go standard library and the public "
         "TicketKey fields; whether it should open and what it should contain is decided by TLC",
-        "forged sessions: TLS 1.0-1.2 against the in-tree server (tls.Server) with known ticket keys; master secrets are read from the "
+        "forged sessions: TLS 1.0-1.3 against the in-tree server (tls.Server) with known ticket keys; the ticket's secret is spliced into "
+        "SessionState.Bytes() at its documented offset (not built through the constructor under test); TLS 1.3: the verif hook ForceSuite13 makes "
+        "the server pick the session's suite, and the PSK binder check is the witness for the secret; TLS <= 1.2: master secrets are read from the "
         "session the client stores after the handshake and from the state the server hands to WrapSession",
         "'unmodified' excludes the 2^-8 chance per byte that an appended byte restores a cut one (Extend is never applied to a cut ticket)",
     ]
@@ -163,17 +169,27 @@ def run(ctx):
     _lap(ctx, "ticket validation")
     # ------------------------------------------------------------------ 3. forged client sessions
     fg = ctx.tlc("Tickets_MC", cfg=_cfg(ctx, "Tickets_Forge_run", "Tickets_Forge",
-                                        **({"Suites": "{49199, 49171}", "Hellos": '{"Golang-0", "Chrome-100"}'} if q else {})), timeout=600)
+                                        **({"Suites": "{49199, 49171}", "Hellos": '{"Golang-0", "Chrome-100"}',
+                                            "Hellos13": '{"Golang-0"}', "ExtraLens13": "{1, 64}"} if q else {})), timeout=600)
     cases = [dict(g, id=i + 1) for i, g in enumerate(fg.tagged("FRG"))]
     if len(cases) < 100:
         raise vlib.Machinery("Tickets_MC (forge) emitted only %d cases" % len(cases))
+    n13 = sum(1 for c in cases if c["vers"] == 772)
+    if n13 < 50:
+        raise vlib.Machinery("Tickets_MC (forge) emitted only %d TLS 1.3 cases" % n13)
+    # the accessor round trip: MasterSecret() of a state whose secret (lengths from TLC) went through the constructor / setter
+    secs = [dict(g, id=len(cases) + i + 1) for i, g in enumerate(fg.tagged("SEC"))]
+    if len(secs) < 16:
+        raise vlib.Machinery("Tickets_MC (forge) emitted only %d accessor cases" % len(secs))
     fevs = ctx.drv("forge", {"cases": cases}, prog="lru", name="forge")
+    fevs += ctx.drv("secrets", {"cases": secs}, prog="lru", name="secrets")
     fper, frejected, frejs, fcov = _sharded(ctx, "f", fevs, 1 if q else 4, coverage=True)
     ctx.traces += len(fper)
     for a in NEED_FORGE:
         if fcov.get(a, 0) == 0:
             vacuous.append("vacuity: trace action %s never matched a recorded handshake" % a)
     cbyid = {c["id"]: c for c in cases}
+    sbyid = {c["id"]: c for c in secs}
 
     _lap(ctx, "forge grid, handshakes, validation")
     # ------------------------------------------------------------------ reproduce rejections in a fresh process
@@ -194,13 +210,30 @@ def run(ctx):
         what = "history %s: event %d %s is not explained by Tickets (%s)" % (c["ops"], r["at"], _short(es[r["at"]]), r["why"])
         for _ in lst:
             ctx.finding(s, what, {"scenario": c, "events": [_short(e) for e in es], "rejection": r})
-    fgroups = {}
+    fgroups, sgroups = {}, {}
     for i in frejected:
+        if i in sbyid:
+            sgroups.setdefault(_sig(frejs[i]), []).append(i)
+            continue
         c = cbyid[i]
         o = fper[i][1].get("o", {})
         cls = "client-panic" if "panic" in o.get("cerr", "") else _sig(frejs[i]).split(":", 1)[1]
-        s = "Forge:%s:via=%s:certs=%s" % (cls, c["via"], "given" if c["certs"] else "none")
+        s = "Forge:%s:tls%s:via=%s:certs=%s" % (cls, "1.3" if c["vers"] == 772 else "1.0-1.2", c["via"], "given" if c["certs"] else "none")
         fgroups.setdefault(s, []).append(i)
+    for s, lst in sorted(sgroups.items()):
+        cand = [dict(sbyid[i], id=n + 1) for n, i in enumerate(lst[:3])]
+        ev1 = ctx.drv("secrets", {"cases": cand}, prog="lru", name="secrets_re")
+        ok1, rej1, _ = _validate(ctx, "sre", ev1, count=False)
+        hit = [c for c in cand if c["id"] not in ok1 and _sig(rej1[c["id"]]) == s]
+        if not hit:
+            raise vlib.Machinery("accessor rejection %s not reproduced in a fresh process" % s)
+        c = hit[0]
+        e = _split(ev1)[c["id"]][1]
+        what = ("a %d-byte secret supplied through %s comes back from ClientSessionState.MasterSecret() as %d bytes %s"
+                % (len(e["supplied"]), "MakeClientSessionState" if c["secvia"] == "make" else "SetMasterSecret", len(e["got"]),
+                   "(supplied %s..., got %s...)" % (e["supplied"][:6], e["got"][:6])))
+        for _ in lst:
+            ctx.finding(s, what, {"case": c, "event": e, "rejection": rej1[c["id"]]})
     for s, lst in sorted(fgroups.items()):
         cand = [dict(cbyid[i], id=n + 1) for n, i in enumerate(lst[:3])]
         ev1 = ctx.drv("forge", {"cases": cand}, prog="lru", name="forge_re")
@@ -238,7 +271,8 @@ def run(ctx):
                             "all single-bit flips and all prefixes of the tickets of %d compact states (every 7th..13th of 4 large ones in the thorough tier); the forge grid; longer histories are sampled" % (nexh, L, 1 if q else 2),
         "tickets": {"history_length": L, "scenarios_exhaustive": nexh, "simulated": sims, "sweeps": len(sweeps),
                     "events_matched": {a: cov.get(a, 0) for a in NEED}, "rejected": len(rejected), "rejection_signatures": {s: len(l) for s, l in groups.items()}},
-        "forge": {"cases": len(fper), "resumed": resumed, "rejected": len(frejected), "rejection_signatures": {s: len(l) for s, l in fgroups.items()},
+        "forge": {"cases": len(cases), "tls13_cases": n13, "accessor_cases": len(secs), "resumed": resumed,
+                  "resumed_tls13": sum(1 for es in fper.values() if es[1]["ev"] == "Forge" and es[1]["o"]["cresumed"] and es[1]["p"]["vers"] == 772), "rejected": len(frejected), "rejection_signatures": {s: len(l) for s, l in fgroups.items()},
                   "matched": {a: fcov.get(a, 0) for a in NEED_FORGE}},
         "canaries_rejected": canaries,
         "wall_s_by_phase": dict(ctx.laps),
@@ -274,7 +308,19 @@ def _canaries(ctx, per, bad, fper, fbad):
     es, n = find(good, lambda e: e["ev"] == "Encrypt")
     if es:
         muts.append(("drop-encrypt", [e for k, e in enumerate(es) if k != n]))
-    es, n = find(fgood, lambda e: e["ev"] == "Forge" and e["o"]["cresumed"])
+    es, n = find(fgood, lambda e: e["ev"] == "Forge" and e["o"]["cresumed"] and e["p"]["vers"] == 772)
+    if es:
+        o = dict(es[n]["o"]); o["ssuite"] = 4865 if o["ssuite"] != 4865 else 4867
+        muts.append(("forge13-server-suite", [dict(e, o=o) if k == n else e for k, e in enumerate(es)]))
+        o = dict(es[n]["o"]); o["sresumed"] = False
+        muts.append(("forge13-server-not-resumed", [dict(e, o=o) if k == n else e for k, e in enumerate(es)]))
+        o = dict(es[n]["o"]); o["cresumed"] = False; o["sresumed"] = False
+        muts.append(("forge13-full-handshake", [dict(e, o=o) if k == n else e for k, e in enumerate(es)]))
+    es, n = find(fgood, lambda e: e["ev"] == "Secret" and len(e["got"]) == 32)
+    if es:
+        muts.append(("secret-padded", [dict(e, got=e["got"] + [0] * 16) if k == n else e for k, e in enumerate(es)]))
+        muts.append(("secret-byte", [dict(e, got=[e["got"][0] ^ 1] + e["got"][1:]) if k == n else e for k, e in enumerate(es)]))
+    es, n = find(fgood, lambda e: e["ev"] == "Forge" and e["o"]["cresumed"] and e["p"]["vers"] != 772)
     if es:
         o = dict(es[n]["o"]); o["cmaster"] = [x ^ 1 for x in o["cmaster"]]
         muts.append(("forge-master", [dict(e, o=o) if k == n else e for k, e in enumerate(es)]))
